@@ -163,6 +163,7 @@ type vOCfg struct {
 	discovery     bool
 	profile       string // "", "ok", "fail"
 	userIDClaim   string // the deprecated user-id-claim option when it differs from the e-mail claim
+	legacy        bool   // the provider is configured through the legacy flag set and its conversion
 }
 
 func (c vOCfg) sx() vsx {
@@ -192,6 +193,32 @@ func vOidcEnv(t *testing.T, c vOCfg, extra func(*options.Options)) *vEnv {
 			p.ProfileURL = vIssuer + "/userinfo"
 		}
 		o.SkipJwtBearerTokens = true
+		if c.legacy {
+			// the same configuration spelled with the legacy flags: what an operator using the command line gets
+			lo := options.NewLegacyOptions()
+			lp := &lo.LegacyProvider
+			lp.ProviderType = "oidc"
+			lp.ClientID, lp.ClientSecret = p.ClientID, p.ClientSecret
+			lp.OIDCIssuerURL = p.OIDCConfig.IssuerURL
+			lp.SkipOIDCDiscovery = p.OIDCConfig.SkipDiscovery
+			lp.OIDCJwksURL = p.OIDCConfig.JwksURL
+			lp.LoginURL, lp.RedeemURL, lp.ProfileURL = p.LoginURL, p.RedeemURL, p.ProfileURL
+			lp.OIDCAudienceClaims = c.audClaims
+			lp.OIDCExtraAudiences = c.extraAud
+			lp.OIDCEmailClaim = c.emailClaim
+			lp.UserIDClaim = p.OIDCConfig.UserIDClaim
+			lp.OIDCGroupsClaim = p.OIDCConfig.GroupsClaim
+			lp.InsecureOIDCAllowUnverifiedEmail = c.allowUnverif
+			lp.InsecureOIDCSkipIssuerVerification = c.skipIssuer
+			lp.InsecureOIDCSkipNonce = true
+			lp.Scope = p.Scope
+			lo.LegacyUpstreams.Upstreams = []string{"static://200"}
+			conv, err := lo.ToOptions()
+			if err != nil {
+				t.Fatalf("legacy conversion: %v", err)
+			}
+			o.Providers = conv.Providers
+		}
 		if extra != nil {
 			extra(o)
 		}
@@ -231,6 +258,9 @@ func driveC04(t *testing.T, out *vEmitter) {
 		{name: "discovery", audClaims: []string{"aud"}, emailClaim: "email", discovery: true, profile: "ok"},
 		{name: "profile", audClaims: []string{"aud"}, emailClaim: "email", profile: "ok"},
 		{name: "skip-issuer", audClaims: []string{"aud"}, emailClaim: "email", skipIssuer: true},
+		{name: "legacy-skip-issuer-only", audClaims: []string{"aud"}, emailClaim: "email", skipIssuer: true, legacy: true},
+		{name: "legacy-allow-unverified-only", audClaims: []string{"aud"}, emailClaim: "email", allowUnverif: true, legacy: true},
+		{name: "legacy-plain", audClaims: []string{"aud"}, extraAud: []string{"extra-aud"}, emailClaim: "email", legacy: true},
 		// both the e-mail claim option and the deprecated user-id-claim option set, to different claims
 		{name: "email-claim-and-user-id-claim", audClaims: []string{"aud"}, emailClaim: "preferred_username", userIDClaim: "sub"},
 	}
@@ -252,6 +282,17 @@ func driveC04(t *testing.T, out *vEmitter) {
 				t3.claims["client"] = 99
 				t3.audOK = false
 				toks = append(toks, &t3)
+				// the first configured claim that is present decides: a foreign audience there is not rescued by a later claim naming this client
+				t4 := *vBaseToken("client-claim-foreign+aud-ours")
+				t4.claims["client"] = "another-service"
+				t4.claims["aud"] = clientID
+				t4.audOK = false
+				toks = append(toks, &t4)
+				t5 := *vBaseToken("client-claim-foreign-list+aud-ours")
+				t5.claims["client"] = []interface{}{"another-service", "third-service"}
+				t5.claims["aud"] = []interface{}{clientID}
+				t5.audOK = false
+				toks = append(toks, &t5)
 			}
 		}
 		for _, tk := range toks {
